@@ -31,6 +31,7 @@ fn axes() -> Vec<Vec<f64>> {
         vec![0.0, 1.0], vec![-1.0, 0.5, 3.0], vec![0.0, 1.0, 2.0, 3.0], vec![0.0, 1.0, 3.0, 3.5], vec![-2.0, -1.5, 0.0, 4.0, 4.25],
         vec![0.0, 0.125, 0.25, 8.0, 9.0, 100.0], vec![1.0, 2.0, 4.0, 8.0, 16.0, 32.0, 64.0], vec![0.0, 10.0, 10.5, 11.0, 11.25, 20.0, 21.0, 30.0],
         vec![1e-3, 1.0, 1.0000000000000002, 5.0],
+        vec![-4.0, -3.5, -3.0, 2.0], vec![-40.0, -39.0, 0.3], vec![1e-20, 2e-20, 3.5e-20, 3.6e-20], vec![6.0e-34, 6.5e-34, 6.6e-34],
     ];
     v.push((0..17).map(|i| (i * i) as f64 * 0.25).collect());
     v.push((0..9).map(|i| i as f64).collect());
@@ -136,6 +137,15 @@ fn probe_inner(unit: &str) {
                     let show = |m: &Monotonic| match m { Monotonic::Rising { strict } => format!("Rising{{strict:{strict}}}"), Monotonic::Falling { strict } => format!("Falling{{strict:{strict}}}"), Monotonic::NotMonotonic => "NotMonotonic".to_string() };
                     let got = catch_unwind(AssertUnwindSafe(|| show(&Array1::from(v.clone()).monotonic_prop()))).unwrap_or("panic".into());
                     if got != want { return out(true, unit, format!("vector={v:?}"), want, got); }
+                    // the same logical vector as a reversed-stride view and as an every-2nd-element view
+                    let mut rv = Array1::from(v.iter().rev().copied().collect::<Vec<_>>());
+                    rv.invert_axis(ndarray::Axis(0));
+                    let got = catch_unwind(AssertUnwindSafe(|| show(&rv.monotonic_prop()))).unwrap_or("panic".into());
+                    if got != want { return out(true, unit, format!("reversed-stride view of {v:?}"), want, got); }
+                    let mut big = Array1::from_elem(2 * len + 1, f64::NAN);
+                    if len > 0 { big.slice_mut(ndarray::s![1..;2]).assign(&Array1::from(v.clone())); }
+                    let got = catch_unwind(AssertUnwindSafe(|| show(&big.slice(ndarray::s![1..;2]).monotonic_prop()))).unwrap_or("panic".into());
+                    if got != want { return out(true, unit, format!("strided view of {v:?}"), want, got); }
                     for k in 0..len {
                         let mut w = v.clone(); w[k] = f64::NAN;
                         let got = catch_unwind(AssertUnwindSafe(|| show(&Array1::from(w.clone()).monotonic_prop()))).unwrap_or("panic".into());
@@ -177,6 +187,43 @@ fn probe_inner(unit: &str) {
                         }
                     }
                 }
+            }
+            out(false, unit, String::new(), String::new(), String::new())
+        }
+        "Linear::integer-affine" => {
+            // C16 for integer element types: data sampled from a + b*x with integer b is reproduced exactly between the knots
+            for (a, b) in [(3i64, 2i64), (-7, 5), (0, -3), (11, 1)] {
+                for ax in [vec![0i64, 2, 4, 10], vec![-6, -3, 0, 9, 12], vec![1, 5, 6, 8]] {
+                    let n = ax.len();
+                    let d64 = Array1::from(ax.iter().map(|x| a + b * x).collect::<Vec<_>>());
+                    let it64 = Interp1DBuilder::new(d64).x(Array1::from(ax.clone())).strategy(Linear::new().extrapolate(true)).build().unwrap();
+                    let d32 = Array1::from(ax.iter().map(|x| (a + b * x) as i32).collect::<Vec<_>>());
+                    let it32 = Interp1DBuilder::new(d32).x(Array1::from(ax.iter().map(|x| *x as i32).collect::<Vec<_>>())).strategy(Linear::new().extrapolate(true)).build().unwrap();
+                    for q in ax[0] - 2..=ax[n - 1] + 2 {
+                        let want = a + b * q;
+                        match catch_unwind(AssertUnwindSafe(|| it64.interp_scalar(q))) {
+                            Ok(Ok(g)) if g == want => {}
+                            other => return out(true, unit, format!("i64 axis={ax:?} data={a}+{b}*x query={q}"), format!("{want}"), format!("{other:?}")),
+                        }
+                        match catch_unwind(AssertUnwindSafe(|| it32.interp_scalar(q as i32))) {
+                            Ok(Ok(g)) if g as i64 == want => {}
+                            other => return out(true, unit, format!("i32 axis={ax:?} data={a}+{b}*x query={q}"), format!("{want}"), format!("{other:?}")),
+                        }
+                    }
+                }
+            }
+            // bilinear a + b*x + c*y + d*x*y on integer grids
+            let (ax, ay) = (vec![0i64, 2, 6], vec![-3i64, 0, 4, 5]);
+            for (a, b, c, d) in [(1i64, 2i64, 3i64, 1i64), (0, -1, 4, 2)] {
+                let z = Array2::from_shape_fn((ax.len(), ay.len()), |(i, k)| a + b * ax[i] + c * ay[k] + d * ax[i] * ay[k]);
+                let it = Interp2DBuilder::new(z).x(Array1::from(ax.clone())).y(Array1::from(ay.clone())).strategy(Bilinear::new()).build().unwrap();
+                for qx in ax[0]..=ax[2] { for qy in ay[0]..=ay[3] {
+                    let want = a + b * qx + c * qy + d * qx * qy;
+                    match catch_unwind(AssertUnwindSafe(|| it.interp_scalar(qx, qy))) {
+                        Ok(Ok(g)) if g == want => {}
+                        other => return out(true, unit, format!("i64 grid x={ax:?} y={ay:?} bilinear data query=({qx},{qy})"), format!("{want}"), format!("{other:?}")),
+                    }
+                } }
             }
             out(false, unit, String::new(), String::new(), String::new())
         }
@@ -239,7 +286,12 @@ fn probe_inner(unit: &str) {
                             return out(true, unit, format!("axis={ax:?} data={:?} boundary={bname} knot {i}", data.to_vec()), format!("continuous first derivative (left slope {dl})"), format!("right slope {dr}"));
                         }
                     }
-                    for q in [ax[0] - 0.5, ax[n - 1] + 0.5, f64::NAN] {
+                    let up = |v: f64| if v > 0.0 { f64::from_bits(v.to_bits() + 1) } else if v < 0.0 { f64::from_bits(v.to_bits() - 1) } else { f64::MIN_POSITIVE };
+                    let down = |v: f64| if v > 0.0 { f64::from_bits(v.to_bits() - 1) } else if v < 0.0 { f64::from_bits(v.to_bits() + 1) } else { -f64::MIN_POSITIVE };
+                    for q in [ax[0], ax[n - 1]] {
+                        if it.interp_scalar(q).is_err() { return out(true, unit, format!("axis={ax:?} boundary={bname} query=range end {q:e}"), "Ok".into(), "Err".into()); }
+                    }
+                    for q in [ax[0] - 0.5, ax[n - 1] + 0.5, f64::NAN, f64::INFINITY, f64::NEG_INFINITY, up(ax[n - 1]), down(ax[0])] {
                         if it.interp_scalar(q).is_ok() { return out(true, unit, format!("axis={ax:?} boundary={bname} query={q}"), "Err(OutOfBounds)".into(), "Ok".into()); }
                     }
                 }
